@@ -256,6 +256,37 @@ func (m *histModel) histEdges(p *eng.Prog, f *ssa.Function) (full map[string]eng
 		// a predicate helper (activeIsFull()) whose every return is one such comparison
 		if pc, isCall := cond.(*ssa.Call); isCall {
 			if h := pc.Call.StaticCallee(); h != nil && p.InRepo(h) && len(h.Blocks) > 0 {
+				// ... or "the history is off" (historyOff() = capacity == 0)
+				offPol, okOff := 0, true
+				for _, r := range eng.Returns(h) {
+					if len(r.Results) != 1 {
+						okOff = false
+						continue
+					}
+					rb, isB := p.Resolve(retVal(p, r)).(*ssa.BinOp)
+					if !isB || !m.capLike(p, rb.X, h) {
+						okOff = false
+						continue
+					}
+					pl := 0
+					switch {
+					case rb.Op == token.EQL && constIntIs(rb.Y, 0), rb.Op == token.LEQ && constIntIs(rb.Y, 0), rb.Op == token.LSS && constIntIs(rb.Y, 1):
+						pl = 1
+					case rb.Op == token.NEQ && constIntIs(rb.Y, 0), rb.Op == token.GTR && constIntIs(rb.Y, 0), rb.Op == token.GEQ && constIntIs(rb.Y, 1):
+						pl = -1
+					}
+					if pl == 0 || (offPol != 0 && offPol != pl) {
+						okOff = false
+					}
+					offPol = pl
+				}
+				if okOff && offPol > 0 {
+					off[tE] = true
+					continue
+				} else if okOff && offPol < 0 {
+					off[fE] = true
+					continue
+				}
 				gen, pol, okP := "", 0, true
 				for _, r := range eng.Returns(h) {
 					if len(r.Results) != 1 {
